@@ -115,36 +115,38 @@ class HyperSpec(Spec):
     def actions(self, env):
         pend, age, tx, hold, last, ntx = env
         acts = []
+        closing = True          # the interface may show `idle` in the coming cycle (apply prunes starts when it does not)
         if tx is None or tx[7]:
             for r in (0, 3):
                 acts.append((None, r, 0, 0, 0))
-            if hold is None and pend is None and ntx < self.cfg["max_tx"]:
-                for s in self._starts:
-                    acts.append((s, 3, 0, 0, 0))
-            return acts
-        req, clk, rwhi, cands, acc, clkd, fin, done, data, rl = tx
-        addr, reg, wr, single = req
-        finals = (1,) if acc >= self.words - 1 else (0, 1)
-        if clk < 3:
-            for r in (0, 3, 2, 1):
-                for w in ((0, 1) if wr else (0,)):
-                    acts.append((None, r, 0, 0, w))
-        elif wr:
-            for r in (0, 3):
-                for f in (finals if not reg else (0,)):
-                    for w in (0, 1):
-                        acts.append((None, r, 0, f, w))
         else:
-            nmin = self.LOW if (cands & 1) else self.HIGH
-            if clk + 1 < 3 + nmin:
-                # latency of a read: RWDS falls from its latency indication within the first latency count, then stays low
-                for r in ((0,) if rl else ((3, 2, 0) if clk + 1 < 3 + self.LOW else (2, 0))):
-                    acts.append((None, r, 0, 0, 0))
-            else:
+            req, clk, rwhi, cands, acc, clkd, fin, done, data, rl = tx
+            addr, reg, wr, single = req
+            closing = fin or (wr and reg and acc >= 1)
+            finals = (1,) if acc >= self.words - 1 else (0, 1)
+            if clk < 3:
                 for r in (0, 3, 2, 1):
-                    for q in (0, 1):
-                        for f in finals:
-                            acts.append((None, r, q, f, 0))
+                    for w in ((0, 1) if wr else (0,)):
+                        acts.append((None, r, 0, 0, w))
+            elif wr:
+                for r in (0, 3):
+                    for f in (finals if not reg else (0,)):
+                        for w in (0, 1):
+                            acts.append((None, r, 0, f, w))
+            else:
+                nmin = self.LOW if (cands & 1) else self.HIGH
+                if clk + 1 < 3 + nmin:
+                    # latency of a read: RWDS falls from its latency indication within the first latency count, then stays low
+                    for r in ((0,) if rl else ((3, 2, 0) if clk + 1 < 3 + self.LOW else (2, 0))):
+                        acts.append((None, r, 0, 0, 0))
+                else:
+                    for r in (0, 3, 2, 1):
+                        for q in (0, 1):
+                            for f in finals:
+                                acts.append((None, r, q, f, 0))
+        if closing and hold is None and pend is None and ntx < self.cfg["max_tx"]:
+            for s in self._starts:
+                acts.append((s, 3, 0, 0, 0))
         return acts
 
     def label(self, a):
